@@ -47,7 +47,7 @@ ASSUMPTIONS = [
 KINDS = ("supervised", "semi", "knn", "unsup")
 
 
-EXPECTED_PROBES = ['model_call_on_overflowing_magnitudes', 'non_contiguous_argument', 'persistent_model_reused', 'persistent_model_predicts', 'caller_supplied_distance_matrix', 'result_compared_with_fresh_interpreter', 'call_raises_consistently', 'caller_rewrote_own_buffer_in_place', 'decorated_metric_on_exact_zero', 'model_fitted_on_buffer_with_history', 'same_array_as_both_arguments', 'tiny_magnitudes_present']
+EXPECTED_PROBES = ['metric_called_with_keyword_arguments', 'model_call_on_overflowing_magnitudes', 'non_contiguous_argument', 'persistent_model_reused', 'persistent_model_predicts', 'caller_supplied_distance_matrix', 'result_compared_with_fresh_interpreter', 'call_raises_consistently', 'caller_rewrote_own_buffer_in_place', 'decorated_metric_on_exact_zero', 'model_fitted_on_buffer_with_history', 'same_array_as_both_arguments', 'tiny_magnitudes_present']
 
 SLOW_ARMS = ("fresh",)
 
@@ -566,7 +566,11 @@ def run_case(case):
             twin = snapshots[ver].clone()
             if prep is not None:
                 attempt(prep, twin, scratch, "twin")  # a fresh model fitted on the same arguments
-            ok2, res2, exc2 = attempt(op, twin, scratch, "twin")
+            twin_op = op
+            if op[0] == "dist" and op[2] in ("kw_xy", "kw_y"):
+                twin_op = [op[0], op[1], "registry"] + op[3:]  # the same argument values, passed positionally
+                bump(out.probes, "metric_called_with_keyword_arguments")
+            ok2, res2, exc2 = attempt(twin_op, twin, scratch, "twin")
             if ok != ok2 or (not ok and type(exc).__name__ != type(exc2).__name__):
                 e = exc if not ok else exc2
                 v = raised_violation(e, B.REPO_PKG, "op #%d %s on the %s world only" % (k, op, "live" if not ok else "pristine"), extra_clause="-history-dependent")
